@@ -72,3 +72,16 @@ Theorem C06_vcurve_rev : forall (y w : list R) llas,
   end.
 Proof. intros y w llas Hl Hn Wn W2. exact (optv_core_rev y w Hl Hn Wn W2 llas). Qed.
 Print Assumptions C06_vcurve_rev.
+
+(** the GCV scan over a grid of positive lambdas (the selection core of ws2dwcv / ws2dwcvp for fixed weights): the scores of
+    y + c equal those of y, so the same lambda wins and the winning curve moves by c.  Missing cells enter with weight 0 and
+    any placeholder (C02_gcv_placeholder_indep), hence also with placeholder + c. *)
+Theorem C06_gcv_scan_shift : forall (K : Gcv.gconsts (F := R)) (y wt : list R) (c : R) de lams sc0 s0 z0,
+  length wt = length y -> (4 <= length y)%nat ->
+  (forall i, (0 <= i < Z.of_nat (length y))%Z -> 0 <= Wk wt i) ->
+  (exists p q, (0 <= p < q)%Z /\ (q < Z.of_nat (length y))%Z /\ 0 < Wk wt p /\ 0 < Wk wt q) ->
+  (forall s, In s lams -> 0 < s) ->
+  Gcv.gcv_scan OpsR de wt (shiftl c y) lams (sc0, s0, shiftl c z0) =
+  (let '(sc, s, z) := Gcv.gcv_scan OpsR de wt y lams (sc0, s0, z0) in (sc, s, shiftl c z)).
+Proof. intros K y wt c de lams sc0 s0 z0 Hl Hn Wn W2 Hp. exact (gcv_scan_shift y wt c Hl Hn Wn W2 de lams Hp sc0 s0 z0). Qed.
+Print Assumptions C06_gcv_scan_shift.
